@@ -23,3 +23,10 @@ class EvalStack:
 
     def replace_top(self, value):
         self._stack[-1] = value
+
+    def depth(self):
+        return len(self._stack)
+
+    def trim(self, depth):
+        while len(self._stack) > depth:
+            self._stack.pop()
